@@ -29,6 +29,11 @@ def Ok3 : State → Prop
 theorem Ok3.cases {st : State} (h : Ok3 st) : st = .SynSent ∨ st = .SynReceived ∨ st = .Established := by
   cases st <;> simp [Ok3] at h ⊢
 
+/-- no FIN waits for queued text in the states of a connection nobody closes -/
+theorem Ok3.finPending {t : Tcb} (h : Ok3 t.state) : t.finPending = false := by
+  unfold Tcb.finPending
+  rcases h.cases with hs | hs | hs <;> rw [hs] <;> rfl
+
 /-- `V_X`: a segment the endpoint with ISS `iss` and submitted bytes `sub` may have emitted -/
 structure Valid (iss : Seq) (sub : List UInt8) (g : Segment) : Prop where
   fin : g.hdr.ctl.fin = false
